@@ -147,7 +147,15 @@ func (e *Engine) callInstr(fc *fnCtx, st *state, in ssa.Instruction, c *ssa.Call
 			}
 			// references to guarded storage handed to code we do not see
 			if !c.IsInvoke() {
-				e.access(fc, st, in, regionOnly(a), nil, false, "passed to "+calleeName(c))
+				if op, isAtomic := atomicOp(c); isAtomic {
+					if i == 0 {
+						if sn := e.access(fc, st, in, regionOnly(a), nil, op.write, "atomic:"+op.name); sn != nil {
+							out.union(sn)
+						}
+					}
+				} else {
+					e.access(fc, st, in, regionOnly(a), nil, false, "passed to "+calleeName(c))
+				}
 			}
 		}
 		if resVal != nil {
@@ -553,4 +561,29 @@ func (e *Engine) contentOf(fc *fnCtx, st *state, av AV, ty types.Type) AV {
 		e.loadTags(fc, st, t, elem, out)
 	}
 	return filterFor(elem, out)
+}
+
+type atomicInfo struct {
+	name  string
+	write bool
+}
+
+// atomicOp classifies a call into sync/atomic (function or method).
+func atomicOp(c *ssa.CallCommon) (atomicInfo, bool) {
+	f := core.Canon(c.StaticCallee())
+	if f == nil {
+		return atomicInfo{}, false
+	}
+	var pkg *types.Package
+	if f.Pkg != nil {
+		pkg = f.Pkg.Pkg
+	} else if f.Object() != nil {
+		pkg = f.Object().Pkg()
+	}
+	if pkg == nil || pkg.Path() != "sync/atomic" {
+		return atomicInfo{}, false
+	}
+	n := f.Name()
+	write := !(len(n) >= 4 && n[:4] == "Load")
+	return atomicInfo{name: "atomic." + n, write: write}, true
 }
